@@ -259,7 +259,7 @@ def h_unitary(env, words, nq, order, steps, n_steps, control, method, via_defaul
                          f"same TrotterSuzukiUnitary object, build_circuit({n_steps}, control={c2}) after control={control} == product formula controlled by {c2}")
 
 
-def h_fermion_op(env, nq, mapping, order, steps, time_mode="scalar", canary=False):
+def h_fermion_op(env, nq, mapping, order, steps, time_mode="scalar", canary=False, complex_hop=False):
     """fermionic input: trotterize maps with the real fermion_to_qubit_mapping (C03 checks the mapping itself); the oracle
     maps the time-scaled operator sum_k c_k t_k T_k and exponentiates the result by the reference product formula"""
     from tangelo.toolboxes.operators import FermionOperator
@@ -270,6 +270,10 @@ def h_fermion_op(env, nq, mapping, order, steps, time_mode="scalar", canary=Fals
     # hermitian: a (p^q + q^p) + b n_r
     # hopping 0<->1 and the occupation of orbital 1 do NOT commute (a product formula of order 1 and of order 2 differ)
     terms = [(((0, 1), (1, 0)), a), (((1, 1), (0, 0)), a), (((1, 1), (1, 0)), b)]
+    if complex_hop:
+        # Hermitian operator with a COMPLEX hopping amplitude (Peierls phase): z p^q + conj(z) q^p + b n_r
+        z = env.complex("z")
+        terms = [(((0, 1), (1, 0)), z), (((1, 1), (0, 0)), z.conjugate()), (((1, 1), (1, 0)), b)]
     op = FermionOperator()
     for t_, c in terms:
         op += FermionOperator(t_, c)
@@ -296,7 +300,7 @@ def h_fermion_op(env, nq, mapping, order, steps, time_mode="scalar", canary=Fals
     for t_, c in terms:
         scaled += FermionOperator(t_, c * times[t_])
     qop = fermion_to_qubit_mapping(scaled, mapping, n_spinorbitals=nq)
-    items = [(w, R.C(c).real) for w, c in qop.terms.items()]
+    items = [(w, (R.C(1) * c if complex_hop else R.C(c).real)) for w, c in qop.terms.items()]
     if canary:
         items = [(w, -x) for w, x in items]
     one = suzuki(items, order, R.C(1) / steps)
@@ -418,4 +422,8 @@ def shapes(tier, seed):
                 out.append(Shape(f"fermionop/{mapping}/o{order}s{steps}/{tm}", h_fermion_op,
                                  dict(nq=3, mapping=mapping, order=order, steps=steps, time_mode=tm),
                                  modules=MODS + ("tangelo.toolboxes.qubit_mappings.mapping_transform",)))
+    for mapping in ("jw", "bk"):
+        out.append(Shape(f"fermionop/{mapping}/o1s1/scalar/complex-hopping", h_fermion_op,
+                         dict(nq=3, mapping=mapping, order=1, steps=1, time_mode="scalar", complex_hop=True),
+                         modules=MODS + ("tangelo.toolboxes.qubit_mappings.mapping_transform",)))
     return out
